@@ -1,0 +1,35 @@
+//go:build verif
+
+// Contracts for package bid_block_func (block hooks of the external bid application) — property C07, clause family
+// C07.bid-prefix.
+// Comment-only file, read by /verif/govc.
+
+package bid_block_func
+
+// hookParam(i): the parameter block app.blockBeginner / app.blockEnder hand to every registered hook
+//@ ghost func hookParam(i iface) common.ExtParam = unbox(i, "common.ExtParam")
+// hookConv(i): the conversation store the hook reaches (router of the action context inside the parameter block)
+//@ ghost func hookConv(i iface) *bid_data.BidConvStore = bidMSr(hookParam(i).ActionCtx.ExtStores).BidConv
+// hookItxWf(ts): the separate internal-transaction State is well formed and its ChainState may be committed (precondition
+// of storage.(*State).Commit, which the hook calls once per queued conversation) except for the int64 bound on the
+// version, stated separately. Same conditions as app.gItxWf.
+//@ ghost func hookItxWf(ts *transactions.TransactionStore) bool = ts != nil && wfState(ts.State) && ts.State.cs.Delivered != nil && ts.State.cs.ChainStateRotation.recent >= 0 && ts.State.cs.ChainStateRotation.every >= 0 && ts.State.cs.ChainStateRotation.cycles >= 0 && ts.State.cs.Version == ivVersion(ts.State.cs.Delivered) && ts.State.cs.Version >= 0 && ts.State.cs.ChainStateRotation.cycles * ts.State.cs.ChainStateRotation.every <= 9223372036854775807
+
+// AddExpireBidTxToQueue (registered for common.BlockBeginner in bid.LoadAppData) scans the conversation store for
+// conversations past their deadline WITHOUT selecting a key space first: whatever key space the cursor is on is scanned.
+// `requires bidConvOnActive` is therefore an explicit ENVIRONMENT INVARIANT of this hook: established by NewBidConvStore at
+// application start, re-established by every bid transaction on every return path (package bid_action; the one known
+// exception is the failing-Set path of CloseBidConv). It is what makes the scan independent of the CheckTx calls that ran
+// since the last block. The body itself only reads the cursor (Iterate) and writes the internal-transaction queue, which
+// lives in its own State: it hands the cursor on unchanged (invariant of the scan, postcondition).
+// The version bound only serves the int64 overflow precondition of ChainState.Commit: one commit per queued conversation.
+//@ func AddExpireBidTxToQueue
+//@   requires dyntype(i, "common.ExtParam") && hookParam(i).Logger != nil && hookItxWf(hookParam(i).InternalTxStore)
+//@   requires bidMasterOK(bidMSr(hookParam(i).ActionCtx.ExtStores)) && hookConv(i).state != nil && hookConv(i).state != hookParam(i).InternalTxStore.State
+//@   requires bidScanCount(hookConv(i))[str(hookConv(i).prefix)] >= 0 && hookParam(i).InternalTxStore.State.cs.Version + bidScanCount(hookConv(i))[str(hookConv(i).prefix)] < 9223372036854775807
+//@   requires bidConvOnActive(hookConv(i))                                                                                  // C07.bid-prefix
+//@   ensures bidConvOnActive(hookConv(i))                                                                                   // C07.bid-prefix
+//@   ensures hookConv(i).prefix == old(hookConv(i).prefix)                                                                  // C07.bid-prefix
+//@   invariant iter1: bidConvOnActive(hookConv(i)) && hookConv(i).prefix == old(hookConv(i).prefix)                         // C07.bid-prefix
+//@   invariant iter1: hookItxWf(hookParam(i).InternalTxStore) && hookParam(i).InternalTxStore.State.cs.Version <= old(hookParam(i).InternalTxStore.State.cs.Version) + $n
+//@   invariant iter1: hookConv(i).state == old(hookConv(i).state) && hookConv(i).state != hookParam(i).InternalTxStore.State
